@@ -46,10 +46,17 @@ Fixpoint it_nth {V} (next : ic_iter V -> res (option V * ic_iter V)) (k : nat) (
   | _, None => Ok r
   | S k', Some _ => it_nth next k' (snd r)
   end.
+(* Iterator::last: run to exhaustion (fuel = number of segments + 1), keep the last item *)
+Fixpoint it_last {V} (next : ic_iter V -> res (option V * ic_iter V)) (fuel : nat) (acc : option V) (it : ic_iter V)
+  : res (option V) :=
+  match fuel with
+  | O => Ok acc
+  | S fuel' => r <- next it ;; match fst r with None => Ok acc | Some x => it_last next fuel' (Some x) (snd r) end
+  end.
 Fixpoint it_script {V} (next : ic_iter V -> res (option V * ic_iter V)) (ks : list nat) (it : ic_iter V)
   : res (list (option V * nat)) :=
   match ks with
-  | [] => Ok []
+  | [] => l <- it_last next (S (List.length (it_pointers it))) None it ;; Ok [(l, 0)]
   | k :: ks' =>
       r <- it_nth next k it ;;
       l <- ic_iter_len (snd r) ;;
@@ -87,6 +94,10 @@ Definition tbl_array : list entry := [
   ("a_argsort", a2 d_backend d_nats (fun B xs => e_nats (b_argsort B xs)));
   ("a_sort_by", a3 d_backend d_nats d_nats (fun B xs k => e_rnats (sort_by B xs k)));
   ("a_sparse_bincount", a2 d_backend d_nats (fun B xs => e_pair e_nats e_nats (b_sparse_bincount B xs)));
+  (* the harness runs these on the inputs scaled by 2^57 (and scales value outputs back): same model *)
+  ("a_argsort_big", a2 d_backend d_nats (fun B xs => e_nats (b_argsort B xs)));
+  ("a_sort_by_big", a3 d_backend d_nats d_nats (fun B xs k => e_rnats (sort_by B xs k)));
+  ("a_sparse_bincount_big", a2 d_backend d_nats (fun B xs => e_pair e_nats e_nats (b_sparse_bincount B xs)));
   ("a_cc", a4 d_backend d_nats d_nats d_nat (fun B s t n => e_res (e_pair e_nats N) (connected_components B s t n)));
   (* the faithful union-find model of the Vec back-end (proved equal to cc_pure) *)
   ("a_cc_uf", a3 d_nats d_nats d_nat (fun s t n => e_res (e_pair e_nats N) (uf_connected_components s t n)));
@@ -764,7 +775,7 @@ Definition run_case (c : sx) : sx :=
           match f args with
           | Sy "badcase" =>
               match args with
-              | Sy b :: rest => if String.eqb b "vec" || String.eqb b "adv" || String.eqb b "adv2" then f rest else bad
+              | Sy b :: rest => if String.eqb b "vec" || String.eqb b "adv" || String.eqb b "adv2" || String.eqb b "adv3" then f rest else bad
               | _ => bad
               end
           | r => r
